@@ -4,6 +4,7 @@ import (
 	"fmt"
 	"go/constant"
 	"go/token"
+	"regexp"
 	"strings"
 
 	"golang.org/x/tools/go/ssa"
@@ -66,10 +67,10 @@ func runC14(c *Ctx) {
 		"the getters themselves are checked against the RFC 4861 field table by C02. Not decided: equality of parsed option values with an independent decoder (C02/C08 cover decoding), timing."
 	r.Rule("na-confined", "forged NA only to hunted MACs, after a router was learned, while not closed", 5)
 	r.Rule("na-flags", "override set, router/solicited clear", 3)
-	r.Rule("hunt-admin", "StartHunt filters and idempotence; StopHunt; the hunt list removes the entry found", 6)
+	r.Rule("hunt-admin", "StartHunt filters and idempotence; StopHunt; the hunt list removes the entry found; 6-byte MACs only, own copy", 8)
 	runNDPSiblings(c)
 	runNDPWideArith(c)
-	r.Rule("router-fields", "each Router field comes from the like-meaning RA getter and is updated by every advertisement", 19)
+	r.Rule("router-fields", "each Router field comes from the like-meaning RA getter and is updated by every advertisement", 20)
 
 	rel := "handlers/icmp_spoofer"
 	loop := c.A.Method(rel, "Handler6", "spoofLoop")
@@ -82,6 +83,7 @@ func runC14(c *Ctx) {
 	}
 	an := locks.Analyse(c.P, c.P.LibFunctions(), isConstructor)
 
+	checkHuntMAC(c, "hunt-admin", start)
 	// StopHunt relies on AddrList.Del: it removes the entry found, and only that one
 	if del := c.A.Method("", "AddrList", "Del"); del != nil {
 		checkSliceRemoval(c, "hunt-admin", "hunt-admin AddrList.Del removes the entry found and no other", del, "recv.list", func(P string, _ []Guard) bool {
@@ -401,6 +403,28 @@ func runC14(c *Ctx) {
 		})
 		r.Add(core.Obligation{Rule: "router-fields", Key: "router-fields every valid advertisement reaches the table", Func: core.FuncName(pp), Pos: c.P.Pos(core.PosOf(site.(ssa.Instruction))), Status: us,
 			Basis: "every path from the advertisement's IsValid to a nil return passes findOrCreateRouter", Detail: det})
+	}
+	// the route prefix recorded has every byte that holds a valid bit: ceil(PrefixLength/8) bytes (or the whole field),
+	// not floor - a /60 route keeps its eighth byte
+	if fn := c.P.Method("", "RouteInformation", "unmarshal"); fn != nil {
+		found := false
+		core.EachInstr(fn, func(i ssa.Instruction) {
+			st, ok := i.(*ssa.Store)
+			if !ok || norm(st.Addr) != "recv.Prefix" {
+				return
+			}
+			found = true
+			v := norm(st.Val)
+			s2 := core.Proved
+			if regexp.MustCompile(`\[\d+\]/8\)`).MatchString(v) && !strings.Contains(v, "+7)/8)") {
+				s2 = core.Violated
+			}
+			r.Add(core.Obligation{Rule: "router-fields", Key: "router-fields RouteInformation.Prefix holds every byte with a valid bit", Func: core.FuncName(fn), Pos: c.P.Pos(core.PosOf(i)), Status: s2,
+				Basis: "prefix bytes = " + v, Detail: "RouteInformation.unmarshal records " + v + ": PrefixLength/8 rounds down, so the last byte of a prefix whose length is not a multiple of 8 (2001:db8:0:12f0::/60) is dropped and the route recorded differs from the one advertised"})
+		})
+		if !found {
+			r.Add(core.Obligation{Rule: "router-fields", Key: "router-fields RouteInformation.Prefix holds every byte with a valid bit", Func: core.FuncName(fn), Status: core.Undecided, Detail: "no store to RouteInformation.Prefix found in unmarshal"})
+		}
 	}
 	for f := range want {
 		if !seen[f] {
